@@ -8,7 +8,7 @@ C_ = "src/state/coins.rs"
 UNIT = Unit(
     name="genesis", uses="group_core_axioms, axiom_zero_hash, axiom_txhash_nonzero",
     prelude=["core.rs", "raw.rs", "iter.rs", "crypto.rs", "state_abs.rs"],
-    lemmas=["sums.rs", "iterlem.rs", "coinsview.rs", "tips.rs", "apply.rs", "header.rs", "txroot_opaque.rs", "seal_opaque.rs", "stateinv.rs"],
+    lemmas=["sums.rs", "iterlem.rs", "coinsview.rs", "tips.rs", "apply.rs", "header.rs", "txroot_opaque.rs", "seal_opaque.rs", "stateinv.rs", "chaininv.rs"],
     items=[
         TypeItem(S, "struct", "UnsealedState"),
         TypeItem(G, "struct", "GenesisConfig"),
@@ -25,12 +25,14 @@ UNIT = Unit(
                     C("coin", """res.coins@.coins == IMap::<CoinID, CoinDataHeight>::empty().insert(CoinID { txhash: TxHash(spec_zero_hash()), index: 0 }, CoinDataHeight { height: BlockHeight(0), coin_data: self.init_coindata })""", "C01", "C02"),
                     C("no_markers", "markers_ok(res.coins@.coins)", "C19", note="base case of the marker invariant: the genesis coin sits under the all-zero transaction hash, which is no marker id (A-HASH)"),
                     C("invariants", "state_inv(res) && chain_ok(res) && pools_ok(res.pools@) && builtins_if_present(res)", "C20", "C16", "C07",
-                      note="base case of the state invariants that every transition under contract preserves")],
+                      note="base case of the state invariants that every transition under contract preserves"),
+                    C("hinv", "hinv(res)", "C09", "C18", note="base case of the chain invariants: empty history, speed 10^6, the one genesis coin at height 0 under the all-zero hash (no reward pseudo-id: A-HASH)")],
            rewrites=[("SUB", "let mut new_state = UnsealedState {", "let __bv = btree_into_vec(self.stakes); let ghost bvs = __bv@; let ghost m0 = self.stakes@; let mut new_state = UnsealedState {"),
                      ("SUB", "StakeSet::new(self.stakes.into_iter())", "StakeSet::new(__bv)")],
            injects=[Inject(("before", "new_state.coins.insert_coin("), "proof { lemma_counts_ok_empty(); assert(new_state.coins@ == (CoinsView { coins: IMap::<CoinID, CoinDataHeight>::empty(), counts: IMap::<Address, nat>::empty() })); }"),
                     Inject("before_tail", """proof { broadcast use axiom_marker_nonzero;
                         assert forall|h: TxHash| !new_state.coins@.coins.contains_key(#[trigger] spec_marker(h)) by { assert(spec_fdp_hash(h) != spec_zero_hash()); assert(spec_marker(h) != (CoinID { txhash: TxHash(spec_zero_hash()), index: 0 })); } }"""),
+                    Inject("before_tail", """proof { broadcast use axiom_reward_nonzero; assert forall|hh: BlockHeight| !new_state.coins@.coins.contains_key(#[trigger] spec_proposer_reward(hh)) by { assert(spec_reward_hash(hh) != spec_zero_hash()); } }"""),
                     Inject("before_tail", """proof { let z = CoinID { txhash: TxHash(spec_zero_hash()), index: 0 };
                assert(origin_ok(new_state.coins@.coins)) by { assert forall|tx: Transaction, i: int| 0 <= i < tx.outputs@.len() && i <= 255 && new_state.coins@.coins.contains_key(#[trigger] cid(tx, i))
                    implies new_state.coins@.coins[cid(tx, i)].coin_data.covhash == tx.outputs@[i].covhash by { assert(cid(tx, i) == z); assert(spec_txhash(tx).0 == spec_zero_hash()); } }
